@@ -121,6 +121,29 @@ CHECKS["C15"] = (
     "re-running the identical rewrite with the single method corrected (harness/patches.py).",
     "TLA+ denotational spec as oracle for rewritten queries (code->spec)")
 
+CHECKS["C13"] = (
+    "model_checking",
+    "NumericTiers.tla is a statement-by-statement transcription of split_ranges; TLC checks Coverage for every "
+    "(step, start, end) of a bit width (6 bits quick, 8 bits thorough) - it found the small-end underflow that was "
+    "then shown on the real function and repaired. The sub-ranges the real function returns are judged by "
+    "NumericTiersTrace.tla; NumericRange/DateRange searches on int 8-64 signed/unsigned, float, Decimal, DATETIME "
+    "fields (shift_step 0-8, domain extremes, exclusive/open ends) by QuerySem!InRange on rank-interned values.",
+    "DESIGN.md 4.8, 5 (C13)",
+    "Ranks preserve every comparison (no 64-bit arithmetic in TLC). Order-isomorphism, round trip and domain "
+    "rejection of the sortable encoding are recorded as facts over boundary-biased pools, not proved for the whole "
+    "64-bit domain.",
+    "TLA+ transcription model-checked exhaustively at small width + TLC-judged outputs of the real function")
+CHECKS["C19"] = (
+    "model_checking",
+    "EditDistance.tla: documented Damerau-Levenshtein distance and a transcription of the Levenshtein NFA; TLC "
+    "checks NFA == distance for all words up to 3 letters over {a,b}, k<=2, every prefix. terms_within / FuzzyTerm "
+    "/ suggest on real one- and three-segment indexes whose lexicon is every word up to 3-4 letters (plus "
+    "multi-byte letters), for every (word, k, prefix incl. longer than the word), judged by TLC.",
+    "DESIGN.md 4.8, 5 (C19)",
+    "Recorded findings: segment readers expand with plain Levenshtein (test-pinned through the spelling tests), "
+    "suggestions include the word itself and are not ranked by closeness (test-pinned).",
+    "TLA+ distance/automaton spec model-checked exhaustively + TLC-judged fuzzy expansions of the real code")
+
 NOT_YET = {}
 
 
